@@ -8,9 +8,12 @@
 (* options each holds -- names and values are symmetric.                   *)
 EXTENDS LayoutTree, Json
 Pub(o) == [a |-> o.a, arg |-> o.arg, exp |-> o.exp]
-LoadNow == [a |-> "load", arg |-> [x |-> 0, text |-> RleOfRuns(text)], exp |-> den]
-Beh == IF obs'.a \in {"load", "cload"} THEN <<Pub(obs')>> ELSE <<LoadNow, Pub(obs')>>
-Emit == PrintT(<<"BEHAV", ToJson(Beh)>>)
+(* the whole history of the layout object up to and including this transition: earlier descriptions with their   *)
+(* operations, the current description's load, the operations after it -- or the current load plus one probe     *)
+Beh == IF obs'.a \in {"load", "reload", "gset", "gbind"} THEN sess'.done \o <<sess'.cur>> \o sess'.steps
+       ELSE IF obs'.a = "cload" THEN <<Pub(obs')>>
+       ELSE History \o <<Pub(obs')>>
+Emit == obs'.a = "next" \/ PrintT(<<"BEHAV", ToJson(Beh)>>)
 
 RECURSIVE Shape(_)
 Shape(body) == [i \in 1..Len(body) |->
@@ -27,7 +30,13 @@ Skel2 == <<[i \in 1..Len(stack) |-> <<KindOf(stack[i].h.kw), stack[i].h.par # <<
 RECURSIVE Closed(_, _)
 Closed(body, lvl) == UNION {IF body[i].e = "opt" THEN {} ELSE {<<KindOf(body[i].h.kw), lvl, body[i].h.par # <<>>, Cardinality({j \in 1..Len(body[i].body) : body[i].body[j].e = "opt"})>>} \cup Closed(body[i].body, lvl + 1) : i \in 1..Len(body)}
 SkelT == <<[i \in 1..Len(stack) |-> <<KindOf(stack[i].h.kw), stack[i].h.par # <<>>, Cardinality({j \in 1..Len(stack[i].body) : stack[i].body[j].e = "opt"})>>],
-           cnt.secs, cnt.opts, UNION {Closed(stack[i].body, i) : i \in 1..Len(stack)}>>
+           cnt.secs, cnt.opts, UNION {Closed(stack[i].body, i) : i \in 1..Len(stack)},
+           sess.docs, sess.sum, sess.rst,
+           IF sess.on THEN <<Len(sess.steps), [i \in GraphIdx(sess.items) |->
+                               <<sess.items[i].p.axes, sess.items[i].p.worlds,
+                                 [j \in 1..Len(sess.items[i].axes) |-> sess.items[i].axes[j].name],
+                                 [j \in 1..Len(sess.items[i].worlds) |-> sess.items[i].worlds[j].name]>>]>>
+           ELSE <<>> >>
 \* quick: open frames (kind, parent named), counts, and for every object built so far its kind, its level and
 \* whether any of its properties differs from the default (an option that took effect / an inherited value)
 IsTopId(i) == \E j \in 1..Len(heap[1].items) : heap[1].items[j].id = i
@@ -36,5 +45,11 @@ Skipped(body) == \E i \in 1..Len(body) : body[i].e = "sec" /\ (KindOf(body[i].h.
 SkelQ == <<[i \in 1..Len(stack) |-> <<KindOf(stack[i].h.kw), stack[i].h.par # <<>>>>],
            cnt.secs, cnt.opts, Skipped(Fold(stack)),
            {<<heap[i].kind, IsTopId(i), heap[i].r # Def2T[heap[i].kind]>> : i \in 2..Len(heap)},
-           heap[1].r.alias # <<>> \/ heap[1].r.font # <<>>>>
+           heap[1].r.alias # <<>> \/ heap[1].r.font # <<>>,
+           sess.docs, sess.sum, sess.rst,
+           IF sess.on THEN <<Len(sess.steps), [i \in GraphIdx(sess.items) |->
+                               <<sess.items[i].p.axes, sess.items[i].p.worlds, sess.items[i].p.foreground,
+                                 [j \in 1..Len(sess.items[i].axes) |-> sess.items[i].axes[j].name],
+                                 [j \in 1..Len(sess.items[i].worlds) |-> sess.items[i].worlds[j].name]>>]>>
+           ELSE <<>> >>
 =============================================================================
